@@ -203,7 +203,7 @@ def check_property(pid, tier, seed, jobs, verbose=False):
         futs = [ex.submit(run_item, it) for it in items]
         for f in futs:
             try:
-                results.append(f.result(timeout=3600))
+                results.append(f.result(timeout=1500))
             except Exception as e:
                 results.append(dict(item={}, obligations=[dict(name=f"{pid}:worker", kind="vc", verdict="ERROR", reason=repr(e))],
                                     meta={}, wall=0))
